@@ -38,7 +38,7 @@ theorem ConnInv.noopen_of_noentry {c : Conn} (h : ConnInv c) (he : c.entry = fal
 theorem wopen_holding (pc : PC) (h : wopen pc = true) : holding pc = true := by
   cases pc <;> simp_all [wopen, holding]
 
-theorem newConn_inv (k : Nat) (a : Option Nat) : ConnInv (newConn k a) := by
+theorem newConn_inv (k : Nat) (a : Option Nat) (l : Bool) : ConnInv (newConn k a l) := by
   simp [ConnInv, newConn]
 
 /-- what one action of an open_connection task preserves -/
@@ -55,7 +55,7 @@ theorem stepS_inv {c c' : Conn} {a : Act} {free : Bool} {cmds : List Cmd}
 /-! ### applying the layer's commands -/
 
 theorem applyCmds_spec : ∀ (cmds : List Cmd) (s s' : St), applyCmds s cmds = some s' →
-    (∃ new, s'.conns = s.conns ++ new ∧ (∀ c ∈ new, ∃ k a, c = newConn k a) ∧
+    (∃ new, s'.conns = s.conns ++ new ∧ (∀ c ∈ new, ∃ k a, c = newConn k a (isLate s.hpc)) ∧
       (s'.lateOpen = false → s.lateOpen = false ∧ (isLate s.hpc = true → new = []))) ∧
     s'.hpc = s.hpc ∧ s'.cpc = s.cpc ∧ s'.centry = s.centry ∧ s'.cwopen = s.cwopen ∧
     s'.nCC = s.nCC ∧ s'.nCD = s.nCD ∧ s'.size = s.size ∧ s'.ccbs = s.ccbs ∧ s'.hcount = s.hcount ∧
@@ -80,7 +80,7 @@ theorem applyCmds_spec : ∀ (cmds : List Cmd) (s s' : St), applyCmds s cmds = s
         simp only [applyCmd] at hc
         split at hc
         · simp only [Option.some.injEq] at hc; subst hc
-          refine ⟨⟨newConn key addr :: new, by simpa using hn1, ?_, ?_⟩, by simpa using h1, by simpa using h2,
+          refine ⟨⟨newConn key addr (isLate s.hpc) :: new, by simpa using hn1, ?_, ?_⟩, by simpa using h1, by simpa using h2,
             by simpa using h3, by simpa using h4, by simpa using h5, by simpa using h6, by simpa using h7, by simpa using h8, by simpa using h9, by simpa using h10, by simpa using h11⟩
           · intro c hc
             rcases List.mem_cons.mp hc with rfl | hc
@@ -103,7 +103,7 @@ def CbInv (c : Conn) : Prop :=
   (c.cbs = [.release] ∨ c.cbs = [.release, .waitH] ∨ c.cbs = [.waitH] ∨ c.cbs = []) ∧
   (c.entry = true → c.cbs = [.release] ∨ c.cbs = [.release, .waitH])
 
-theorem newConn_cb (k : Nat) (a : Option Nat) : CbInv (newConn k a) ∧ hasWait (newConn k a) = false := by
+theorem newConn_cb (k : Nat) (a : Option Nat) (l : Bool) : CbInv (newConn k a l) ∧ hasWait (newConn k a l) = false := by
   simp [CbInv, newConn, hasWait]
 
 /-- the client connection handler's callbacks -/
@@ -148,7 +148,7 @@ structure Inv (s : St) : Prop where
 theorem init_inv (n : Nat) : Inv (init n) := by
   constructor <;> simp [init, HInv, CInv, cwait, preC, postC]
 
-theorem holdsAt_new (a k : Nat) (ad : Option Nat) : holdsAt a (newConn k ad) = false := by
+theorem holdsAt_new (a k : Nat) (ad : Option Nat) (l : Bool) : holdsAt a (newConn k ad l) = false := by
   simp [holdsAt, newConn, holding]
 
 theorem Inv.apply {s s' : St} {cmds : List Cmd} (hi : Inv s) (h : applyCmds s cmds = some s') : Inv s' := by
@@ -157,13 +157,13 @@ theorem Inv.apply {s s' : St} {cmds : List Cmd} (hi : Inv s) (h : applyCmds s cm
     rw [List.countP_eq_zero]
     intro c hc
     obtain ⟨k, ad, rfl⟩ := hn2 c hc
-    simp [(newConn_cb k ad).2]
+    simp [(newConn_cb k ad _).2]
   constructor
   · intro c hc
     rw [hn1] at hc
     rcases List.mem_append.mp hc with hc | hc
     · exact hi.conn c hc
-    · obtain ⟨k, a, rfl⟩ := hn2 c hc; exact newConn_inv k a
+    · obtain ⟨k, a, rfl⟩ := hn2 c hc; exact newConn_inv k a _
   · have := hi.h
     unfold HInv at this ⊢
     rw [h1, h3, h4, h5, h6]; exact this
@@ -171,7 +171,7 @@ theorem Inv.apply {s s' : St} {cmds : List Cmd} (hi : Inv s) (h : applyCmds s cm
     rw [hn1] at hc
     rcases List.mem_append.mp hc with hc | hc
     · exact hi.cb c hc
-    · obtain ⟨k, a, rfl⟩ := hn2 c hc; exact (newConn_cb k a).1
+    · obtain ⟨k, a, rfl⟩ := hn2 c hc; exact (newConn_cb k a _).1
   · have := hi.cl
     unfold CInv cwait at this ⊢
     rw [h1, h2, h3, h8]; exact this
@@ -184,7 +184,7 @@ theorem Inv.apply {s s' : St} {cmds : List Cmd} (hi : Inv s) (h : applyCmds s cm
     rw [hn1] at hc
     rcases List.mem_append.mp hc with hc | hc
     · exact hi.nowait hl c hc
-    · obtain ⟨k, a, rfl⟩ := hn2 c hc; exact (newConn_cb k a).2
+    · obtain ⟨k, a, rfl⟩ := hn2 c hc; exact (newConn_cb k a _).2
   · intro hw hl c hc he
     obtain ⟨hl0, hnew⟩ := hn3 hl
     rw [h1] at hw
